@@ -24,8 +24,9 @@ PROP = dict(
                  "Props/C07 per_page_zero_panics)",
                  "theorems hold for every environment; hypotheses on it are explicit: FlushKeepsLookups (the reopen+flush "
                  "after a key does not change lookup answers - C09/C10's subject) for the page invariant; RangeIs (the "
-                 "highlighted symbols are syllables) for completeness - proved for the selector's loops only by "
-                 "correspondence + oracle so far",
+                 "highlighted symbols are syllables) for completeness - a theorem (range_is_syllables_partial, through C01's "
+                 "invariant) except for jump_to_*_selection_point on an open phrase list, where it rests on correspondence + "
+                 "oracle",
                  "env.lookupAll is Layered::lookup_all_phrases (system layers + user layer minus removed entries); that "
                  "it returns what the layers hold is checked by the oracle against the raw layers, and is C09's theorem",
                  "the C glue (chewing_cand_*) is modelled in Model/Candidates.lean as thin wrappers of the Rust getters "
@@ -33,7 +34,7 @@ PROP = dict(
 )
 
 MANIFEST = dict(
-    text="Lean 4 theorems (Chewing/Props/C07.lean; lemmas in Proofs/Paging.lean, Proofs/EditorSelect.lean) over the "
+    text="Lean 4 theorems (Chewing/Props/C07.lean; lemmas in Proofs/Paging.lean, Proofs/EditorSelect.lean; C01's invariant from Props/C01.lean) over the "
          "executable editor model (Model/Editor.lean: phrase / symbol-table / special-symbol selectors, "
          "Selecting.{candidates,totalPage,select}, every Selecting key arm, Editor.{select,jump,startSelecting}; "
          "Model/Candidates.lean: the four getters and the chewing_cand_* glue), for every environment and state. "
@@ -59,10 +60,20 @@ MANIFEST = dict(
          "incl. indices beyond the list and usize::MAX). choose_special / choose_symbol (symbol lists: the listed character is inserted / replaces the symbol under "
          "the cursor, a category opens its sub-table on page 0); opened_phrase_list_in_range / init_range (a freshly opened "
          "phrase list is non-empty, on page 0, strictly in range, over a non-empty part of the buffer for which the "
-         "dictionary has a phrase). NOT YET THEOREMS: that the highlighted range always consists of syllables (RangeIs is a "
-         "premise) and begin<end<=len after Down/Space cycling and jumps (only after init), that the opened range is the "
-         "longest one with a phrase (oracle check D only), termination of the selector loops. F04, F08, the missing page reset of j/k/jump "
-         "and the symbol lists' answer to an out-of-range choice were repaired by fix: commits; F32 (stale page after a configuration/dictionary call while a list is open) and F40 (chewing_cand_list_first on the simple engine's single-word list swallows a following non-syllable symbol: range_is_syllables_refuted, found by the thorough tier) are known findings with exact oracle classes.",
+         "dictionary has a phrase). range_is_syllables_partial (the highlighted range of an open phrase list consists of "
+         "syllables - the premise RangeIs of phrase_list_complete - after every history covered by C01's reachable-state "
+         "invariant: all key events in all states, select(n), start/cancel selecting, commit, reset, option/layout/engine/"
+         "dictionary calls, under C01's EnvOK, minus C01's recorded class F02/F03 and minus jump_to_*_selection_point while a "
+         "phrase list is open); f40_history_repaired (the former F40 witness history evaluated in the model: the range stays the "
+         "syllable). NOT YET THEOREMS: range_is_syllables_full (the same for EVERY environment and history incl. the four jumps on "
+         "an open phrase list - stated as a def, neither proved nor refuted any more; correspondence + oracle only), that the "
+         "opened range is the longest one with a phrase (oracle check D only). F04, F08, the missing page reset of j/k/jump, "
+         "the symbol lists' answer to an out-of-range choice and F40 (chewing_cand_list_first on the simple engine's "
+         "single-word list swallowed a following non-syllable symbol; found by the thorough tier, repaired by C01's fix "
+         "'init_single_word remembers the position of the word'; the refutation range_is_syllables_refuted was deleted because "
+         "it is no longer true, and the oracle class is gone: a recurrence is reported as new) were repaired by fix: commits; "
+         "F32 (stale page after a configuration/dictionary call while a list is open) is the one known finding, with an exact "
+         "oracle class.",
     note="Trusted: Lean kernel (standard axioms), read-only snapshot hooks, harness + compiled model driver. The C functions "
          "chewing_cand_* are modelled by reading (thin wrappers over the Rust getters the correspondence drives).",
     technique="Lean 4 proof (list/division arithmetic for all lists and page sizes; invariant by case analysis over every arm "
